@@ -40,7 +40,7 @@ RULE = ("real projects of 0-12 jobs over textually colliding universes (1/10/100
         "{job.id}, tabulated callables chosen to collide} x schema in {None, schema string derived from the "
         "layout, tabulated callable (exact / one wrong / type-confused / partial)} x optional pre-existing jobs "
         "in the importing project (then also user copy functions failing with EXDEV / EIO / ENOSPC) x empty sub-directories in ~10% of the jobs x a few paths that leave the target or "
-        "are not in normal form ('../y', absolute, 'c//d', 'b/.', ''); plus direct cases for the schema-string parser and normpath/join; distinct = "
+        "are not in normal form ('../y', 'd/../../y', absolute, 'c//d', 'b/.', ''), 8% of the exports placed inside the importing project's directory under a name that starts like its workspace; an import under an inexact schema that returns must have filed every job under the hash of the state point it holds; plus direct cases for the schema-string parser and normpath/join; distinct = "
         "distinct (state points, target, path, schema, pre) ; non-trivial = at least one job")
 MODELLED = ["zipfile / tarfile / shutil.copytree / os.walk byte level behaviour (only the member list and the "
             "copied file set are compared)",
